@@ -124,6 +124,19 @@ func c04Signers() []c04Signer {
 			ca := c04CA(kind)
 			return ca, nil, nil, nil
 		}},
+		{"end-entity-named-like-its-CA", false, func(kind string) (*world.Ident, []*world.Ident, []*x509.Certificate, *world.Ident) {
+			// the client certificate carries the distinguished name of its issuing CA: by name both are candidates, one of
+			// them is entitled - the signature has to be the entitled one's
+			ca := c04CA(kind)
+			return ca, []*world.Ident{ca, p.Root}, nil, nil // signer = the leaf itself
+		}},
+		{"certificate-signing-certificate-of-a-split-CA-without-cRLSign", false, func(kind string) (*world.Ident, []*world.Ident, []*x509.Certificate, *world.Ident) {
+			// a CA with two certificates of the same name: one for signing certificates (keyCertSign only, in the chain), one
+			// for signing CRLs (cRLSign, configured as trusted signer). The CRL is signed with the certificate-signing key.
+			certCA := world.Issue(p.Root, world.CertOpt{CN: "split CA " + kind, IsCA: true, KeyKind: kind, KeyIdx: 6, Serial: big.NewInt(41), KeyUsage: x509.KeyUsageCertSign})
+			crlCA := world.Issue(p.Root, world.CertOpt{Subject: &certCA.Cert.Subject, IsCA: true, KeyKind: kind, KeyIdx: 7, Serial: big.NewInt(42), KeyUsage: x509.KeyUsageCRLSign})
+			return certCA, []*world.Ident{certCA, p.Root}, []*x509.Certificate{crlCA.Cert}, certCA
+		}},
 		{"unrelated-key", false, func(kind string) (*world.Ident, []*world.Ident, []*x509.Certificate, *world.Ident) {
 			ca := c04CA(kind)
 			un := world.Issue(nil, world.CertOpt{CN: "unrelated " + kind, IsCA: true, KeyKind: kind, KeyIdx: 4, Serial: big.NewInt(33)})
@@ -174,12 +187,17 @@ type c04Case struct {
 	Path   string // first-load | refresh
 	BadSig bool
 	Flip   int // bit index into the document, -1 none
+	// Forge: the signature is the signer's, but over a digest of zero length / over the digest of nothing
+	Forge string
 }
 
 func (c c04Case) String() string {
 	s := fmt.Sprintf("alg=%s signer=%s aki=%s path=%s", c.Alg.Name, c04Signers()[c.Signer].Name, c04AKIForms[c.AKI], c.Path)
 	if c.BadSig {
 		s += " badsig"
+	}
+	if c.Forge != "" {
+		s += " signature-over-" + c.Forge
 	}
 	if c.Flip >= 0 {
 		s += fmt.Sprintf(" flip=%d", c.Flip)
@@ -204,6 +222,9 @@ func c04Doc(c c04Case) (doc []byte, leaf *world.Ident, chain [][]*x509.Certifica
 	if strings.Contains(sg.Name, "names-itself") {
 		lo.NoKeyUsage = true // basicConstraints cA=FALSE is all that says "not a CRL signer"
 	}
+	if strings.Contains(sg.Name, "named-like-its-CA") {
+		lo.CN, lo.Subject = "", &issuer.Cert.Subject
+	}
 	leaf = world.Issue(issuer, lo)
 	if signer == nil {
 		signer = leaf
@@ -223,6 +244,7 @@ func c04Doc(c c04Case) (doc []byte, leaf *world.Ident, chain [][]*x509.Certifica
 		Entries:    []world.RevEntry{{Serial: big.NewInt(101), Date: vsched.Epoch.Add(-2 * time.Hour)}, {Serial: big.NewInt(105), Date: vsched.Epoch.Add(-2 * time.Hour)}},
 		Signer:     signer.Key,
 		BadSig:     c.BadSig,
+		Forge:      c.Forge,
 	}
 	if c.Alg.Name == "ed25519" {
 		spec.Signer = nil // no ed25519 key in the cast: the algorithm must be refused whatever the signature bytes are
@@ -265,7 +287,7 @@ func c04Doc(c c04Case) (doc []byte, leaf *world.Ident, chain [][]*x509.Certifica
 			supported = true
 		}
 	}
-	expectEntitled = sg.Entitled && supported && !c.BadSig && akiMatchesSigner && c.Flip < 0
+	expectEntitled = sg.Entitled && supported && !c.BadSig && akiMatchesSigner && c.Flip < 0 && c.Forge == ""
 	return
 }
 
@@ -574,6 +596,8 @@ func RunC04(tier string, args []string) int {
 				feature = "bitflip-in-signed-region alg=" + c.Alg.KeyKind
 			} else if c.BadSig {
 				feature = "bad-signature"
+			} else if c.Forge != "" {
+				feature = "signature-over-" + c.Forge + " alg=" + c.Alg.Name
 			} else if c04Signers()[c.Signer].Entitled && !c04Supported(c.Alg) {
 				feature = "alg=" + c.Alg.Name
 			}
@@ -624,6 +648,20 @@ func RunC04(tier string, args []string) int {
 						judge(c04Case{Alg: a, Signer: s, AKI: aki, Path: path, Flip: -1})
 						judge(c04Case{Alg: a, Signer: s, AKI: aki, Path: path, Flip: -1, BadSig: true})
 					}
+				}
+			}
+		}
+	}
+	// a genuine signature of the entitled signer - but over a digest of zero length, or over the digest of nothing (what a
+	// reader verifies which never fed the signed content into the digest): under every algorithm identifier
+	for _, path := range []string{"first-load", "refresh", "refresh-retry-after-signer-handshake"} {
+		for _, a := range algs {
+			if a.PSS || a.Name == "ed25519" || a.KeyKind == "" {
+				continue
+			}
+			for _, forge := range []string{"empty-digest", "digest-of-nothing"} {
+				for _, aki := range []int{0, 1} {
+					judge(c04Case{Alg: a, Signer: 0, AKI: aki, Path: path, Flip: -1, Forge: forge})
 				}
 			}
 		}
